@@ -83,6 +83,141 @@ BOTTOM_ROW = {"bottom_left", "bottom", "bottom_right"}
 EPS = 1e-6
 
 
+
+def bounds_by_fold(prog, bd):
+    """bounds() written as one `fold` over the cells with a tuple of running extremes.  The closure touches the
+    coordinates only through min / max / comparisons, so its meaning is fixed by its results on every ordering of a few
+    distinct cells: it is evaluated (path by path, integers only) on all permutations of three cells with pairwise distinct
+    x and y, from the empty accumulator, and the accumulator positions that end up in Cell::new(.., ..) of the result must
+    be (min x, min y) / (max x, max y).  Returns (ok, reason)."""
+    import itertools
+    from ..mirlib import paths as mir_paths
+    from ..exprs import closure_of
+    rets = [strip(simplify(r)) for r in Expr(prog, bd).returns()]
+    some = [r for r in rets if r[0] == "agg" and r[2] == "Some"]
+    if len(some) != 1:
+        return False, ""
+    tup = strip(some[0][3][0][1])
+    if not (tup[0] == "agg" and len(tup[3]) == 2):
+        return False, ""
+    folds = []
+    mentions(tup, lambda z: z[0] == "call" and re.search(r"Iterator::fold$", z[1]) and len(z[2]) == 3 and folds.append(z) and False)
+    if len({id(f) for f in folds}) < 1 or any(strip(f) != strip(folds[0]) for f in folds):
+        return False, ""
+    f = strip(folds[0])
+    src, init, clv = strip(f[2][0]), strip(f[2][1]), strip(f[2][2])
+    e = src
+    while e[0] == "call" and re.search(r"::(iter|deref|into_iter|keys)$", e[1]) and e[2]:
+        e = strip(e[2][0])
+    if not (e[0] == "param" and e[1] == 1 and not e[2]):
+        return False, "the fold does not run over the cell map itself"
+    if not (init[0] == "agg" and init[2] == "None"):
+        return False, "the fold does not start from None"
+    cl, _caps = closure_of(clv)
+    if cl not in prog.bodies:
+        return False, ""
+    ps = mir_paths(prog, cl)
+    if not ps:
+        return False, "the fold closure is not loop free"
+
+    def ev(x, env):
+        x = strip(x)
+        k = x[0]
+        if k == "const":
+            return int(x[2])
+        if k == "param":
+            v = env[x[1]]
+            for fld in x[2]:
+                v = proj(v, fld)
+            return v
+        if k == "field":
+            v = ev(x[1], env)
+            for fld in x[2]:
+                v = proj(v, fld)
+            return v
+        if k == "discr":
+            v = ev(x[1], env)
+            return 1 if v[0] == "Some" else 0
+        if k == "agg" and x[2] in ("Some", "None"):
+            return ("Some", ev(x[3][0][1], env)) if x[2] == "Some" else ("None",)
+        if k == "agg" and x[1] == "tuple":
+            return ("tuple", tuple(ev(v_, env) for _, v_ in x[3]))
+        if k == "call" and re.search(r"cmp::(Ord::)?(min|max)$|Ord>?::(min|max)$", x[1]) and len(x[2]) == 2:
+            a_, b_ = ev(x[2][0], env), ev(x[2][1], env)
+            return min(a_, b_) if x[1].endswith("min") else max(a_, b_)
+        if k == "call" and re.search(r"Deref>::deref$|Clone>::clone$", x[1]) and x[2]:
+            return ev(x[2][0], env)
+        if k == "bin" and x[1] in ("Lt", "Le", "Gt", "Ge", "Eq", "Ne"):
+            a_, b_ = ev(x[2], env), ev(x[3], env)
+            return int({"Lt": a_ < b_, "Le": a_ <= b_, "Gt": a_ > b_, "Ge": a_ >= b_, "Eq": a_ == b_, "Ne": a_ != b_}[x[1]])
+        raise ValueError("unsupported %s" % (x[:2],))
+
+    def proj(v, fld):
+        if isinstance(fld, str) and fld.startswith("@"):
+            if v[0] != fld[1:]:
+                raise ValueError("variant")
+            return v
+        if isinstance(v, tuple) and v and v[0] == "Some" and str(fld) == "0":
+            return v[1]
+        if isinstance(v, tuple) and v and v[0] == "tuple":
+            return v[1][int(fld)]
+        if isinstance(v, dict):
+            return v[fld]
+        raise ValueError("projection %r of %r" % (fld, v))
+
+    def step(acc, cell):
+        env = {2: acc, 3: cell}
+        for conds, ret in ps:
+            taken = True
+            for c, tk in conds:
+                if strip(c)[0] == "const":
+                    continue
+                v = int(ev(c, env))
+                if (isinstance(tk, tuple) and v in tk[1]) or (not isinstance(tk, tuple) and v != tk):
+                    taken = False
+                    break
+            if taken:
+                return ev(ret, env)
+        raise ValueError("no path")
+
+    cells = [{"x": 5, "y": 30}, {"x": 7, "y": 10}, {"x": 2, "y": 20}]
+    want = {"minx": 2, "maxx": 7, "miny": 10, "maxy": 30}
+    layout = None
+    try:
+        for perm in itertools.permutations(cells):
+            acc = ("None",)
+            for c in perm:
+                acc = step(acc, c)
+            if acc[0] != "Some" or acc[1][0] != "tuple" or len(acc[1][1]) != 4:
+                return False, "the fold does not accumulate four extremes"
+            vals = acc[1][1]
+            lay = {}
+            for name, v in want.items():
+                pos = [i for i, got in enumerate(vals) if got == v]
+                if len(pos) != 1:
+                    return False, "the accumulated tuple is %r for the cells %r" % (vals, [(c["x"], c["y"]) for c in perm])
+                lay[name] = pos[0]
+            if layout is not None and lay != layout:
+                return False, "the accumulator's layout depends on the order of the cells"
+            layout = lay
+    except (ValueError, KeyError, IndexError, TypeError) as ex_:
+        return False, "the fold closure is not a min/max accumulation the evaluator understands (%s)" % ex_
+    # which accumulator positions reach the two cells of the result
+    def pos_of(a):
+        a = strip(a)
+        digits = [f for f in a[2] if str(f).isdigit()] if a[0] == "field" else []
+        return int(digits[-1]) if digits and mentions(a, lambda z: z[0] == "call" and re.search(r"Iterator::fold$", z[1])) else None
+    got = []
+    for _, cell in tup[3]:
+        cell = strip(cell)
+        if not (cell[0] == "call" and cell[1].endswith("cell::Cell::new") and len(cell[2]) == 2):
+            return False, ""
+        got.append((pos_of(cell[2][0]), pos_of(cell[2][1])))
+    if got == [(layout["minx"], layout["miny"]), (layout["maxx"], layout["maxy"])]:
+        return True, ""
+    return False, "the corners are built from accumulator positions %r, the extremes sit at %r" % (got, layout)
+
+
 def run(run):
     prog = run.prog
     # ---------------- M1
@@ -131,7 +266,17 @@ def run(run):
                         r = rest[0]
                         # unwrap_or(bounds(self), (Cell::new(0,0), Cell::new(0,0))).1.<coord>
                         ok = r[0] == "field" and r[2] == ("1", coord) and strip(r[1])[0] == "call" and strip(r[1])[1].endswith("unwrap_or")
-                        if ok:
+                        if not ok and r[0] == "phi" and len(r[1]) == 2:
+                            # `match self.bounds() { Some((_, br)) => br, None => Cell::new(0, 0) }.<coord>`
+                            alts_ = [strip(a_) for a_ in r[1]]
+                            zero_cell = [a_ for a_ in alts_ if a_[0] == "field" and a_[2] == (coord,) and strip(a_[1])[0] == "call" and strip(a_[1])[1].endswith("cell::Cell::new") and all(is_const(z_, 0) for z_ in strip(a_[1])[2])]
+                            from_b = [a_ for a_ in alts_ if a_[0] == "field" and tuple(a_[2])[-2:] == ("1", coord) and "@Some" in a_[2] and strip(a_[1])[0] == "call" and strip(a_[1])[1] == bd and strip(strip(a_[1])[2][0]) == ("param", 1, ())]
+                            if len(zero_cell) == 1 and len(from_b) == 1:
+                                ok = True
+                                alt_form = True
+                        if ok and alt_form:
+                            pass
+                        elif ok:
                             u = strip(r[1])
                             src = strip(u[2][0])
                             dflt = strip(u[2][1])
@@ -247,6 +392,12 @@ def run(run):
                                 good_all = False
                                 selective = state["bad"] or "no running min/max over the cells found"
                     ok = good_all
+        if not ok:
+            fold_ok, why_fold = bounds_by_fold(prog, bd)
+            if fold_ok:
+                ok = True
+            elif why_fold:
+                selective = selective or why_fold
         if ok:
             run.ok("C12.M1", "bounds() = ((min x, min y), (max x, max y)) of the occupied cells", where(bb))
         else:
